@@ -399,6 +399,107 @@ def histories(c, impl, model, rng, thorough):
                     ", prefix %r" % st[3] if st[0] == "acwalk" else "", got[5:], want[5:]), rep)
 
 
+# ------------------------------------------------------------------------------------- a writer stopped inside its critical section
+# driver op 12 (go/impl/cmd/implrun/c11busy.go; model: stall / waited / st_* / stalled_run; theorems C11_lookups_do_not_depend_on_the_busy_flag,
+# C11_lookups_under_a_stalled_writer). BBusyState is left set over a WHOLE table (a writer of another process slower than the reader's one-second
+# wait, or killed right after setting the flag: it stays behind for the next server run); every lookup and listing still has to equal the scan.
+# Then the flag is released and G goroutines repeat the cache.* lookups at once: every answer has to be the sequential one.
+S_CALLS = {"name": ["GetBid", "FindBoardIdxByName asc", "FindBoardIdxByName desc", "FindBoardAutoCompleteStartIdx asc", "FindBoardAutoCompleteStartIdx desc"],
+           "class": ["FindBoardIdxByClass asc", "FindBoardIdxByClass desc"]}
+
+
+def s_cases(rng, thorough):
+    """(label, table, v, G, R)"""
+    ent = lambda i, c=0: (H_NAMES[i], H_CLASSES[c] + " ")
+    fixed = [("one-board", [ent(0, 0)], 1), ("vacated-slot", [ent(7, 0), ("", "\0\0\0\0\0"), ent(6, 3), ent(1, 1)], 1),
+             ("full-width-names", [ent(4, 2), ent(2, 0), ent(3, 0), ent(5, 1)], 2)]
+    out = []
+    for label, tbl, v in fixed:
+        out.append((label, tbl, v, 8, 8000 if thorough else 2000))
+    for j in range(8 if thorough else 2):
+        idx = rng.sample(range(len(H_NAMES)), rng.randrange(2, 7))
+        tbl = [ent(i, rng.randrange(len(H_CLASSES))) for i in idx]
+        out.append(("random/%d" % j, tbl, rng.choice([1, 1, 3, -1]), rng.choice([2, 4, 8, 16]), 8000 if thorough else 2000))
+    return out
+
+
+def s_build(tbl, v, G, R, rng):
+    ref = HRef()
+    st0 = ref.step(("install", tbl, 0))
+    obs = [ob for ob in h_observe(ref.tbl, rng, False, True) if ob[0] in ("name", "class")]
+    obs += [("walk", 2, asc, by) for asc in (1, 0) for by in (0, 1)] + [("walk", len(tbl) + 1, 1, 0)]
+    want = [ref.step(ob) for ob in obs]
+    busy = lambda r: r[:1] + [v] + r[2:]
+    seq = [(("install", tbl, 0), st0, "A")] + [(ob, w, "A") for ob, w in zip(obs, want)] + [(("stall", v), busy(st0), "B")] + \
+          [(ob, busy(w), "B") for ob, w in zip(obs, want)] + [(("release",), st0, "C")] + [(("concurrent", G, R), st0 + [0, -1, -1, 0], "C")]
+    line = "12|0 %d %s|%d %d %d|%s" % (len(tbl), " ".join(h_nt(nm, t5) for nm, t5 in tbl), v, G, R, "|".join(h_wire(ob) for ob in obs))
+    exp = "0 " + " ".join("%d %s" % (len(r), " ".join(str(x) for x in r)) for _, r, _ in seq)
+    return line, exp, seq, obs
+
+
+def stalled(c, impl, model, rng, thorough):
+    cases = s_cases(rng, thorough)
+    built = [s_build(tbl, v, G, R, rng) for _, tbl, v, G, R in cases]
+    lines = [b[0] for b in built]
+    c.cov["exhaustive_parts"].append("lookups under a busy flag left set and by several goroutines at once (op 12): %d tables (one board, a vacated slot, names of 11/12 characters, "
+                                     "PRNG(seed) tables of 2..6 boards) loaded in fresh shared memory; GetBid / FindBoardIdxByName / auto-complete for every name in three letter cases + "
+                                     "absent names + prefixes, FindBoardIdxByClass, by-name and by-class listing walks - first with nobody writing, then with BBusyState = v (1, 2, 3, -1) "
+                                     "set over the whole table for as long as the lookups run (every call in a goroutine of its own), then released and repeated by 2..16 goroutines x "
+                                     "%d rounds at once; every number predicted by the reference scan" % (len(cases), cases[0][4]))
+    io = vf.run_impl(impl, "C11", lines, deadline_ms=240000)
+    c.count(sum(len(b[2]) for b in built), "stalled-writer-steps")
+    if model:
+        mo = vf.run_model(model, lines)
+        vf.correspond(c, "lookups under a stalled writer / by several goroutines (op 12) vs model", lines, io, mo)
+    for (label, tbl, v, G, R), (line, exp, seq, obs), o in zip(cases, built, io):
+        c.cov["distribution"]["stalled-writer"] = c.cov["distribution"].get("stalled-writer", 0) + 1
+        names = [nm for nm, _ in tbl]
+        rep = {"cases": [line], "expected": exp, "got": o}
+        if o.split()[:1] in (["1"], ["2"]):
+            c.violation("stalled-writer-" + ("crash" if o.split()[0] == "1" else "hang"), "table %r loaded in fresh state, then lookups with BBusyState = %d left set / by %d goroutines at once: %s" % (
+                names, v, G, "panics" if o.split()[0] == "1" else "does not return"), rep)
+            continue
+        recs = h_parse(o)
+        if recs is None or len(recs) != len(seq):
+            c.violation("stalled-writer-output", "table %r, BBusyState = %d: unreadable result" % (names, v), rep)
+            continue
+        c.nontrivial(("stalled", line))
+        c.sample({"op": "stalled-writer", "case": label, "table": names, "flag": v, "goroutines": G, "rounds": R, "impl": o[:300]})
+        seen = set()
+        for (st, want, phase), got in zip(seq, recs):
+            if got == want:
+                continue
+            if phase == "A":
+                if len(got) >= 2 and got[1] != 0:
+                    key, what = "busy-flag-left-set-after-install", "ReloadBCache of %r leaves BBusyState = %d" % (names, got[1])
+                else:
+                    key, what = "stalled-writer-quiescent-" + st[0], "table %r, nobody writing: %s = %s, a scan of the table says %s" % (names, h_describe(st), got[5:], want[5:])
+            elif st[0] in ("stall", "release"):
+                key, what = "stalled-writer-status", "table %r, after BBusyState was set to %d%s: [err busy busyB n records] = %s, expected %s" % (
+                    names, v, "" if st[0] == "stall" else " and released", got, want)
+            elif st[0] == "concurrent":
+                ob = obs[got[6]] if len(got) >= 9 and 0 <= got[6] < len(obs) else None
+                key = "concurrent-lookups-differ"
+                what = "table %r, nobody writing, %d goroutines x %d rounds of the lookups at once: %s answers differ from the sequential ones%s" % (
+                    names, G, R, got[5] if len(got) > 5 else "?",
+                    "" if ob is None or ob[0] not in S_CALLS else ", e.g. %s%r = %d" % (S_CALLS[ob[0]][got[7]], tuple(ob[1:]), got[8]))
+            elif st[0] in S_CALLS:
+                bad = [(w, g, x) for w, g, x in zip(S_CALLS[st[0]], got[5:], want[5:]) if g != x]
+                if bad:
+                    key = "lookup-under-stalled-writer-" + bad[0][0].split()[0]
+                    what = "table %r whole and sorted, BBusyState = %d left set by a writer stopped in its critical section: %s%r = %d, a scan of the table says %d" % (
+                        names, v, bad[0][0], tuple(st[1:]), bad[0][1], bad[0][2])
+                else:
+                    key, what = "stalled-writer-status", "table %r, BBusyState = %d: after %s [err busy busyB n records] = %s, expected %s" % (names, v, h_describe(st), got[:5], want[:5])
+            else:
+                key = "listing-under-stalled-writer-" + ("by-class" if st[3] else "by-name")
+                what = "table %r whole and sorted, BBusyState = %d left set by a writer stopped in its critical section: %s listing (page size %d, %s): [err .. pages positions...] = %s, every visible board once in order is %s" % (
+                    names, v, "by-class" if st[3] else "by-name", st[1], "asc" if st[2] else "desc", got[:1] + got[5:], want[:1] + want[5:])
+            if key not in seen:
+                seen.add(key)
+                c.violation(key, what, rep)
+
+
 def seq_tbl(seq, upto):
     """the reference table at the step `upto` of a built scenario (replayed from its operations)"""
     ref = HRef()
@@ -930,6 +1031,7 @@ def main():
                     k, "asc" if asc else "desc", [(x[:4], nm) for x, nm in zip(st, sn)], o, want), {"cases": [l], "expected": want, "got": o})
 
     histories(c, impl, model, rng, thorough)
+    stalled(c, impl, model, rng, thorough)
 
     c.finish(rule="tables: every ordered selection of <= %d names from the pool %r + subsets of %d in PRNG(seed) orders + random tables of 6..59 boards; "
                   "queries: every pool name, probes below/above/absent/other case; classes incl. one with a non-blank fifth title byte; prefixes incl. empty, 12, 13 and 16 bytes, and last bytes 'Z', '@', 0xFF (+ two tables on which the latter two fail); "
@@ -938,9 +1040,14 @@ def main():
                   "prefixes of 11 and 12 bytes, by-name / by-class / auto-complete listing walks in both directions; "
                   "histories (op 8, one scenario per case line, fresh shared memory and no .BRD): 8 first-time / error paths of loading x PRNG(seed) creations "
                   "(AppendRecord + AddbrdTouchCache, bbs.CreateBoard) x final reload, every number the driver prints after every operation predicted by the reference; "
+                  "stalled writer (op 12): fixed tables + PRNG(seed) tables of 2..6 boards, flag values 1, 2, 3, -1, 2..16 goroutines; "
                   "non-trivial = distinct (table, operation, query) that returned" % (NALL, POOL, NMAX, WCLASSES, WIDE),
-             assumptions=["the table is quiescent during lookups (BBusyState sleep-and-proceed is not a lock and is not modelled); that no busy flag is left set after "
-                          "an operation returns is checked after every operation of every history",
+             assumptions=["no writer is in the MIDDLE of rewriting the table during lookups (BBusyState sleep-and-proceed is not a lock); a busy flag that stays set over a whole table "
+                          "- a writer stopped right after setting it, or a killed writer's flag left in the shared memory - is exercised by op 12 and modelled (stall / waited: theorem "
+                          "C11_lookups_under_a_stalled_writer is about the model's reader, the code's reader is tied to it by correspondence and the scan predicate); that no busy flag is "
+                          "left set after an operation returns is checked after every operation of every history",
+                          "several goroutines of one process doing lookups at once (phase C of op 12) is validation by a stress run of 2..16 goroutines, not a theorem: the executable model "
+                          "has no parallelism; a race that needs more overlapping calls than the run makes is not excluded",
                           "histories keep the cache coherent with the board file: a file put in place by the harness is followed by ReloadBCache; deleting .BRD under a loaded "
                           "cache (the old table stays) and refused creations are not exercised; history tables are twin-free with at most one vacated slot, so that "
                           "every output is determined",
